@@ -326,4 +326,99 @@ def reluNoiseClampAfter (t : Tie) (c : ReluCfg) (f : Rat) (useSte : Bool) (x : R
 def reluNoiseF (rd : Rnd) (t : Tie) (c : ReluCfg) (st : Store) (useSte : Bool) (x : Rat) : Rat :=
   mixF rd (c.act x) (qreluU t c x) st useSte
 
+/-! ## compiled calls: the quantizer called from a `tf.function`  (strengthening round, seed C07-8)
+
+  `fn = tf.function(lambda x: q(x))` (the Keras train step is such a function) runs the PYTHON body
+  of `__call__` once, at trace time: the `if not self.built: self.build(...)` prologue and the read of
+  the attribute `self.qnoise_factor`.  What the attribute is at that moment decides what the graph
+  holds for ever after:
+    * a python number  → two float32 CONSTANTS (`float32(v)`, `float32(float64(1 - v))`): later
+      `update_qnoise_factor` calls rebind the attribute and the graph never sees them — the reason
+      `use_variables=True` exists;
+    * a `tf.Variable`   → a read of THAT variable object at every execution: `assign` is seen.
+  An explicit second `build(use_variables=True)` replaces the attribute by a fresh Variable; a graph
+  traced before keeps reading the old one (frozen at the value it had).  `QNoiseScheduler.
+  set_quantizers` therefore re-builds only quantizers whose factor is not a Variable yet. -/
+
+/-- what a traced graph holds for `self.qnoise_factor` -/
+inductive Cap where
+  /-- a python number was read at trace time: baked in as constants -/
+  | const (v : Rat)
+  /-- the quantizer's current Variable: read at every execution -/
+  | live
+  /-- a Variable the quantizer has replaced since (explicit re-build); it keeps the value `v` -/
+  | stale (v : Rat)
+deriving Repr, DecidableEq, Inhabited
+
+/-- the raw value held by a store -/
+def Store.raw : Store → Rat
+  | .py v => v
+  | .var v => v
+
+/-- what reading the attribute at trace time captures -/
+def Store.capture : Store → Cap
+  | .py v => .const v
+  | .var _ => .live
+
+/-- the factor storage a compiled call computes with -/
+def Cap.store (q : QState) : Cap → Store
+  | .const v => .py v
+  | .live => q.store
+  | .stale v => .var v
+
+/-- does the (eager) operation replace the attribute by a FRESH Variable -/
+def QState.replacesVar (s : QState) : Op → Bool
+  | .build b => b
+  | .call => !s.built && s.useVars
+  | _ => false
+
+/-- effect of an eager operation on what a traced graph reads -/
+def Cap.after (s : QState) (op : Op) : Cap → Cap
+  | .live => if s.replacesVar op then .stale s.store.raw else .live
+  | k => k
+
+/-- one quantizer object plus ONE compiled function wrapping its call (`cap = none`: not traced yet) -/
+structure CState where
+  q : QState
+  cap : Option Cap
+deriving Repr, DecidableEq, Inhabited
+
+inductive COp where
+  /-- any single-quantizer operation outside the compiled function (eager calls included) -/
+  | eager (op : Op)
+  /-- a call through the compiled function (same input signature: traced once) -/
+  | ccall
+deriving Repr, DecidableEq, Inhabited
+
+def CState.step (rd : Rnd) (c : CState) : COp → CState
+  | .ccall =>
+    match c.cap with
+    | some _ => c       -- the graph is executed; no python code of the quantizer runs
+    | none => { q := c.q.call rd, cap := some (c.q.call rd).store.capture }
+  | .eager op => { q := (c.q.step rd op).1, cap := c.cap.map (Cap.after c.q op) }
+
+def CState.run (rd : Rnd) (c : CState) : List COp → CState
+  | [] => c
+  | o :: os => CState.run rd (c.step rd o) os
+
+/-- the factor storage the NEXT compiled call computes with (tracing first if necessary) -/
+def CState.cstore (rd : Rnd) (c : CState) : Store :=
+  match (c.step rd .ccall).cap with
+  | some k => k.store (c.step rd .ccall).q
+  | none => (c.step rd .ccall).q.store
+
+/-- the factor the next compiled call multiplies with -/
+def CState.ceff (rd : Rnd) (c : CState) : Rat := (c.cstore rd).asF rd
+
+/-- variable-backed mode: the factor already is a Variable, or the first call will make it one
+    (`use_variables=True` on a quantizer that is not built yet) -/
+def QState.varMode (s : QState) : Bool := s.store.isVar || (s.useVars && !s.built)
+
+/-- the eager operations of a history, in order (what the python object goes through outside the
+    graph; a compiled call contributes the `call` prologue only when it traces) -/
+def eagerOps : List COp → List Op
+  | [] => []
+  | .eager op :: os => op :: eagerOps os
+  | .ccall :: os => eagerOps os
+
 end QKV.QNoise
